@@ -74,13 +74,16 @@ fn next_size(sizes: &[u32], i: &mut usize) -> usize {
     s
 }
 
-fn consume_blocking<R: Read>(r: &mut R, sizes: &[u32], cap: usize) -> Consumed {
+/// `eintr_budget`: the source can inject at most as many Interrupted results as its trace has events. A stream is
+/// judged not to end when it keeps producing: more data than expected, more Interrupted results than the source
+/// can have injected, or an unreasonable number of empty answers to non-empty reads. Reads into an empty buffer
+/// and Interrupted results are legal "no progress" steps and are not counted against the stream.
+fn consume_blocking<R: Read>(r: &mut R, sizes: &[u32], cap: usize, eintr_budget: u64) -> Consumed {
     let mut c = new_consumed();
     let mut i = 0usize;
-    let mut guard = 0u64;
+    let mut data_reads = 0u64;
     loop {
-        guard += 1;
-        if guard > 256 + 8 * cap as u64 || c.bytes.len() > cap {
+        if c.bytes.len() > cap || data_reads > cap as u64 + 64 || c.eintr_seen > eintr_budget {
             c.runaway = true;
             return c;
         }
@@ -95,7 +98,10 @@ fn consume_blocking<R: Read>(r: &mut R, sizes: &[u32], cap: usize) -> Consumed {
                 }
             }
             Ok(0) => break,
-            Ok(n) => c.bytes.extend_from_slice(&buf[..n]),
+            Ok(n) => {
+                data_reads += 1;
+                c.bytes.extend_from_slice(&buf[..n])
+            }
             // a blocking consumer retries Interrupted, as io::copy / read_to_end do
             Err(e) if e.kind() == std::io::ErrorKind::Interrupted => c.eintr_seen += 1,
             Err(e) => {
@@ -104,8 +110,8 @@ fn consume_blocking<R: Read>(r: &mut R, sizes: &[u32], cap: usize) -> Consumed {
             }
         }
     }
-    let mut tries = 0;
-    while c.eof_confirmed < 3 && tries < 32 {
+    let mut tries = 0u64;
+    while c.eof_confirmed < 3 && tries < 32 + eintr_budget {
         tries += 1;
         let mut buf = [0u8; 64];
         match r.read(&mut buf) {
@@ -154,11 +160,11 @@ async fn read_cancellable<R: AsyncRead + Unpin>(r: &mut R, buf: &mut [u8], cance
 async fn consume_async<R: AsyncRead + Unpin>(r: &mut R, sizes: &[u32], cap: usize, cancel_every: u8) -> Consumed {
     let mut c = new_consumed();
     let mut i = 0usize;
-    let mut guard = 0u64;
+    let mut data_reads = 0u64;
     let mut pendings = 0u64;
     loop {
-        guard += 1;
-        if guard > 256 + 8 * cap as u64 || c.bytes.len() > cap {
+        // (the executor's poll budget bounds everything that makes no progress)
+        if c.bytes.len() > cap || data_reads > cap as u64 + 64 {
             c.runaway = true;
             return c;
         }
@@ -188,7 +194,10 @@ async fn consume_async<R: AsyncRead + Unpin>(r: &mut R, sizes: &[u32], cap: usiz
                 }
             }
             Ok(0) => break,
-            Ok(n) => c.bytes.extend_from_slice(&buf[..n]),
+            Ok(n) => {
+                data_reads += 1;
+                c.bytes.extend_from_slice(&buf[..n])
+            }
             Err(e) => {
                 c.err = Some(ErrKind::from_io(e.kind()));
                 return c;
@@ -289,11 +298,13 @@ impl Prop for C08 {
         }
         let cap = expected.len() + 64;
         let sizes = case.buf_sizes.clone();
+        let n_events = case.spec.trace.len() as u64;
         let mut exec_stats = crate::exec::ExecStats::default();
         let got: Result<Consumed, (String, String)> = match case.consumer {
             Consumer::Blocking => match guarded(move || {
+                let eintr_budget = n_events + 16;
                 let mut r = msg.into_read();
-                consume_blocking(&mut r, &sizes, cap)
+                consume_blocking(&mut r, &sizes, cap, eintr_budget)
             }) {
                 Ok(c) => Ok(c),
                 Err(p) => Err(("panic-reading-stream".into(), p)),
